@@ -521,6 +521,11 @@ def run_c20(ctx):
     model_check(ctx, 'MC_Demux', 'Demux_c20_quick.cfg' if quick else 'Demux_c20.cfg', workers=8)
     clean = demux_scenarios(ctx, ['Demux_gen_psi_quick.cfg', 'Demux_gen_pes_quick.cfg'], 'rg', sample=250 if quick else 8000)
     rnd = harness_gen(ctx, 'demux', 60 if quick else 3000, ctx.seed, 3)
+    # streams whose PMT-PID units may precede the PAT announcing them: nothing learnt before the Rewind may be left
+    early = harness_gen(ctx, 'demux', 40 if quick else 1500, ctx.seed + 4242, 3, opt='earlypmt')
+    for s in early:
+        s['sid'] = 'e' + s['sid']
+    rnd += early + demux_scenarios(ctx, ['Demux_gen_early_quick.cfg'], 're', sample=200 if quick else 5000)
     scs = []
     for j, s in enumerate(clean + rnd):
         for psize in ((0, -1) if len(s['pkts']) >= 1 else (0,)):
